@@ -53,6 +53,7 @@ def case_conservation(case):
     px, py = case["pad"]
     nxe, nye = nx + 2 * px, ny + 2 * py
     dom = (nxe * dx, nye * dy)
+    sl.pollute(nxe, nye, dx, dy)
     z, prof = sl.build_profiles(case["prof"], 4)
     nz = len(z)
     levels = list(range(nz))
@@ -102,6 +103,39 @@ def case_conservation(case):
     return {"v": v[:6], "nt": True, "n": len(sources), "obs": {"worst_flux_mean_err": worst_f, "worst_resistance_rel_dev": worst_c, "nodes": nz}}
 
 
+def case_int_column(case):
+    """an idealised column written in whole numbers and handed over as INTEGER arrays (heights, winds, diffusivities,
+    source, background) must give what the same column gives as floats"""
+    S = sl.solver()
+    nx, ny = 6, 4
+    z = np.array([1, 2, 4, 7, 11, 16])
+    prof = (np.array([1, 2, 2, 3, 3, 4]), np.array([1, 1, 0, -1, -1, -2]), np.array([1, 2, 3, 4, 5, 6]), np.array([2, 2, 3, 3, 4, 4]), np.array([1, 2, 3, 4, 5, 6]))
+    q = (np.arange(ny * nx).reshape(ny, nx) % 5 - 1)
+    levels = list(range(len(z)))
+    v = []
+    n = 0
+    for an, fp in itertools.product((False, True), (False, True)):
+        kw = dict(modes=(6, 4), halo=case["halo"], precision="double", analytic=an, footprint=fp, meas_pt=(20, 15) if fp else (0, 0), srf_bg_conc=3)
+        fkw = dict(kw, meas_pt=tuple(float(t) for t in kw["meas_pt"]), srf_bg_conc=3.0)
+        _, cf, ff = S(q.astype(float), z.astype(float), tuple(p.astype(float) for p in prof), (60.0, 60.0), levels, **fkw)
+        for which in ("all", "z+Kz", "z", "profiles", "source"):
+            zi = z if which in ("all", "z+Kz", "z") else z.astype(float)
+            pi = tuple(p if (which in ("all", "profiles") or (which == "z+Kz" and k == 4)) else p.astype(float) for k, p in enumerate(prof))
+            qi = q if which in ("all", "source") else q.astype(float)
+            try:
+                _, ci, fi = S(qi, zi, pi, (60, 60) if which == "all" else (60.0, 60.0), levels, **(kw if which == "all" else fkw))
+            except Exception as e:
+                v.append({"sub": "integer-column", "sig": "integer-column/raises", "msg": "integer-typed %s (analytic=%s, footprint=%s, halo=%r): raises %s: %s" % (which, an, fp, case["halo"], type(e).__name__, str(e)[:120])})
+                continue
+            n += 1
+            for nm, a, b in (("conc", ci, cf), ("flux", fi, ff)):
+                e = sl.relerr(a, b, max(np.abs(b).max(), 1e-300))
+                if not e <= 1e-12:
+                    lm = np.abs(np.asarray(a).reshape(len(z), -1).mean(axis=1) - np.asarray(b).reshape(len(z), -1).mean(axis=1)).max()
+                    v.append({"sub": "integer-column", "sig": "integer-column/%s" % which, "msg": "integer-typed %s (analytic=%s, footprint=%s, halo=%r): %s differs from the float column by %.2e of the maximum (level means differ by %.3g)" % (which, an, fp, case["halo"], nm, e, lm)})
+    return {"v": v[:6], "nt": n, "key": core.canon(case), "n": n + 4}
+
+
 def case_unitmass(case):
     S = sl.solver()
     nx, ny = case["grid"]
@@ -109,6 +143,7 @@ def case_unitmass(case):
     px, py = case["pad"]
     nxe, nye = nx + 2 * px, ny + 2 * py
     dom = (nxe * dx, nye * dy)
+    sl.pollute(nxe, nye, dx, dy)
     z, prof = sl.build_profiles(case["prof"], 4)
     nz = len(z)
     levels = list(range(nz))
@@ -149,8 +184,14 @@ def halo_cases(tier):
     halos = [h for h in sl.HALOS if h != 0.0] + ([] if tier == "quick" else [52.0, 100.0])
     modes = ("full", [4, 4]) if tier == "quick" else ("full", [4, 4], [64, 64], [6, 4])
     precs = ("double",) if tier == "quick" else ("double", "single")
-    for p, g, h, m, pr, fp in itertools.product(profs, grids, halos, modes, precs, (True, False)):
-        yield {"prof": p, "grid": g[0], "dom": g[1], "halo": h, "modes": m, "prec": pr, "footprint": fp}
+    for p, g, m, pr, fp in itertools.product(profs, grids, modes, precs, (True, False)):
+        hs = [h for h in halos if m != "full"] or None
+        if m == "full":
+            # 'full' means another mode count for every halo: one case per halo
+            for h in halos:
+                yield {"prof": p, "grid": g[0], "dom": g[1], "halo": h, "modes": m, "prec": pr, "footprint": fp}
+        else:
+            yield {"prof": p, "grid": g[0], "dom": g[1], "halos": hs, "modes": m, "prec": pr, "footprint": fp}
     if tier == "quick":
         g = sl.GRIDS[1]
         for h, fp in itertools.product(halos, (True, False)):
@@ -161,6 +202,28 @@ def halo_cases(tier):
 
 
 def case_halo(case):
+    if "halos" in case:
+        # consecutive cases of one process differ ONLY in the halo (same profiles, grid, modes, sources, towers)
+        out = {"v": [], "n": 0, "worst": 0.0}
+        # phase 1: the halo calls of ALL halos back to back (item by item, halo innermost), phase 2: the padded twins
+        base = {k: v for k, v in case.items() if k != "halos"}
+        pre = {}
+        its = None
+        for idx in range(64):
+            for h in case["halos"]:
+                got = case_halo(dict(base, halo=h, _only_first=idx))
+                if got is None:
+                    break
+                pre[(repr(h), idx)] = got
+            else:
+                continue
+            break
+        for h in case["halos"]:
+            r = case_halo(dict(base, halo=h, _first={i: pre[(repr(h), i)] for (hh, i) in pre if hh == repr(h)}))
+            out["v"] += r["v"]
+            out["n"] += r["n"]
+            out["worst"] = max(out["worst"], r["obs"]["worst_rel_err"])
+        return {"v": out["v"][:6], "nt": True, "n": out["n"], "obs": {"worst_rel_err": out["worst"], "halos": case["halos"]}}
     S = sl.solver()
     seed = int(os.environ.get("VERIF_SEED", "0") or 0)
     nx, ny = case["grid"]
@@ -169,13 +232,15 @@ def case_halo(case):
     halo = case["halo"]
     nxe, nye, px, py = sl.padded_size(nx, ny, dom, halo)
     dome = (nxe * dx, nye * dy)
+    sl.pollute(nxe, nye, dx, dy)
     z, prof = sl.build_profiles(case["prof"], 4)
     levels = [0, 2, 4, len(z) - 1]
     modes = (nxe, nye) if case["modes"] == "full" else tuple(case["modes"])
     prec = case["prec"]
     tol = 1e-9 if prec == "double" else 2e-5
     fp = case["footprint"]
-    rng = core.case_rng(seed, case)
+    pub = {k: v for k, v in case.items() if not k.startswith("_")}
+    rng = core.case_rng(seed, {k: v for k, v in pub.items() if k != "halo"})
     v = []
     worst = 0.0
     n = 0
@@ -186,9 +251,21 @@ def case_halo(case):
         items = [(k, q, (0.0, 0.0), BGS[n_ % 3]) for n_, (k, q) in enumerate(fl.items())]
         items += [("impulse+shift", sl.impulse(ny, nx, 1, 2), (3 * dx, 2 * dy), 2.5), ("random+shift", fl["random"], ((nx - 1) * dx, 1 * dy), -4.0)]
         items += [("impulse(%d,%d)" % (j, i), sl.impulse(ny, nx, j, i), (0.0, 0.0), 0.0) for j, i in ((0, 0), (ny - 1, nx - 1), (2, nx - 2))]
+    # first ALL halo calls one after the other (consecutive solves that differ only in source / tower), then the
+    # explicitly padded twins: an interleaved order would hide state carried from one halo call to the next
+    if "_only_first" in case:  # phase 1 of the grouped mode: just the halo call of item number idx
+        idx = case["_only_first"]
+        if idx >= len(items):
+            return None
+        name, q, mp, bg = items[idx]
+        return S(q, z, prof, dom, levels, halo=halo, meas_pt=mp, modes=modes, footprint=fp, precision=prec, srf_bg_conc=bg)
+    first = {}
+    for idx, (name, q, mp, bg) in enumerate(items):
+        kw = dict(modes=modes, footprint=fp, precision=prec, srf_bg_conc=bg)
+        first[name] = case["_first"][idx] if "_first" in case else S(q, z, prof, dom, levels, halo=halo, meas_pt=mp, **kw)
     for name, q, mp, bg in items:
         kw = dict(modes=modes, footprint=fp, precision=prec, srf_bg_conc=bg)
-        _, ca, fa = S(q, z, prof, dom, levels, halo=halo, meas_pt=mp, **kw)
+        _, ca, fa = first[name]
         qp = np.pad(q, ((py, py), (px, px)))
         # dispersion mode treats meas_pt == (0,0) as "no re-centring": keep that on the padded side too
         mpb = mp if (not fp and mp == (0.0, 0.0)) else (mp[0] + px * dx, mp[1] + py * dy)
@@ -202,7 +279,7 @@ def case_halo(case):
             if not e <= tol:
                 v.append({"sub": "halo-padding", "sig": "halo-padding/%s/%s" % ("footprint" if fp else "dispersion", nm),
                           "msg": "%s %s: halo=%r (pad %d,%d cells) differs from explicit zero padding by %.2e of the field maximum (shapes %s vs %s); config %s"
-                          % (name, nm, halo, px, py, e, a.shape, b.shape, core.canon(case))})
+                          % (name, nm, halo, px, py, e, a.shape, b.shape, core.canon(pub))})
     return {"v": v[:6], "nt": True, "n": n, "obs": {"worst_rel_err": worst, "pad_cells": [px, py]}}
 
 
@@ -220,3 +297,4 @@ def run(ctx):
     ctx.run_cases(case_conservation, cc, sub="conservation", chunksize=1)
     ctx.run_cases(case_unitmass, cc, sub="unit-mass", chunksize=1)
     ctx.run_cases(case_halo, halo_cases(ctx.tier), sub="halo-padding", chunksize=1)
+    ctx.run_cases(case_int_column, [{"halo": h} for h in (0.0, 13.0, None)], sub="integer-typed column", chunksize=1)
